@@ -1074,6 +1074,8 @@ class TLSRecordLayer(object):
                 if recordHeader.type == ContentType.alert:
                     alert = Alert().parse(p)
                     raise TLSRemoteAlert(alert)
+                # no alert from the other side, report the send failure
+                raise
             else:
                 # If we got some other message who know what
                 # the remote side is doing, just go ahead and
